@@ -16,7 +16,9 @@ EXPLANATION = (
     "(not an effect), INIT (object under construction), RESTORED (saved before and re-assigned in a finally) or "
     "MEMO (write-once registry/cache slot). (R2) object.__setattr__ on frozen DataType instances only in "
     "__init__/__post_init__. (R3) values obtained from to_schema()/the model cache are deep-copied before being "
-    "written. (R4) the schema transformation methods have no effect on their receiver at all. NOT decided: verdict "
+    "written. (R4) the schema transformation methods have no effect on their receiver at all. (R5) no schema class "
+    "aliases its state dict in __setstate__ (copy.copy must not share __dict__). (R6) hidden state outside the schema: "
+    "config_context, which polars validate enters on every call, restores the outer configuration in a finally. NOT decided: verdict "
     "stability on probe frames; mutations performed by user callbacks."
 )
 LEVEL_RULE = "one obligation per write site reaching a shared schema/check/dtype object from an observer entry"
